@@ -1,0 +1,88 @@
+//go:build verif
+
+package iscp
+
+import (
+	"github.com/aptpod/iscp-go/transport"
+	"github.com/aptpod/iscp-go/wire"
+)
+
+// Verification hooks (build tag "verif" only). Nothing here changes library behaviour;
+// the file only exposes unexported entry points to the external verification harness.
+
+// VerifRegisterDialer registers a custom dialer for the given transport name
+// (same as the test-only RegisterDialer).
+func VerifRegisterDialer(tr TransportName, f func() transport.Dialer) {
+	customDialFuncs[tr] = f
+}
+
+// VerifSentStorage is the unexported sent-storage interface.
+type VerifSentStorage = sentStorage
+
+// VerifNewInmemSentStorage returns the payload-retaining in-memory sent storage.
+func VerifNewInmemSentStorage() VerifSentStorage { return newInmemSentStorage() }
+
+// VerifNewInmemSentStorageNoPayload returns the payload-stripping in-memory sent storage.
+func VerifNewInmemSentStorageNoPayload() VerifSentStorage { return newInmemSentStorageNoPayload() }
+
+// VerifSentStorage returns the sent storage used by the connection.
+func (c *Conn) VerifSentStorage() VerifSentStorage { return c.sentStorage }
+
+// VerifWithConnSentStorage sets the sent storage of a connection.
+func VerifWithConnSentStorage(s VerifSentStorage) ConnOption {
+	return func(o *ConnConfig) { o.sentStorage = s }
+}
+
+// VerifWireConn returns the current wire connection.
+func (c *Conn) VerifWireConn() *wire.ClientConn {
+	c.wireConnMu.Lock()
+	defer c.wireConnMu.Unlock()
+	return c.wireConn
+}
+
+func verifTry(name string, try func() bool, unlock func(), held *[]string) {
+	if try() {
+		unlock()
+		return
+	}
+	*held = append(*held, name)
+}
+
+// VerifLockProbe tries every mutex owned by the connection once and returns the names of those
+// that could not be taken.
+func (c *Conn) VerifLockProbe() []string {
+	var held []string
+	verifTry("Conn.wireConnMu", c.wireConnMu.TryLock, c.wireConnMu.Unlock, &held)
+	verifTry("Conn.replyCallsChsMu", c.replyCallsChsMu.TryLock, c.replyCallsChsMu.Unlock, &held)
+	verifTry("Conn.upstreamCallAckMu", c.upstreamCallAckMu.TryLock, c.upstreamCallAckMu.Unlock, &held)
+	verifTry("Conn.upstreamMu", c.upstreamMu.TryLock, c.upstreamMu.Unlock, &held)
+	verifTry("Conn.downstreamMu", c.downstreamMu.TryLock, c.downstreamMu.Unlock, &held)
+	verifTry("Conn.state", c.state.TryLock, c.state.Unlock, &held)
+	if c.wireConnMu.TryLock() {
+		wc := c.wireConn
+		c.wireConnMu.Unlock()
+		held = append(held, wc.VerifLockProbe()...)
+	}
+	return held
+}
+
+// VerifLockProbe tries every mutex owned by the upstream once.
+func (u *Upstream) VerifLockProbe() []string {
+	var held []string
+	verifTry("Upstream.mu", u.mu.TryLock, u.mu.Unlock, &held)
+	verifTry("Upstream.state", u.state.TryLock, u.state.Unlock, &held)
+	l := u.receivedAck.L.(interface {
+		TryLock() bool
+		Unlock()
+	})
+	verifTry("Upstream.receivedAck.L", l.TryLock, l.Unlock, &held)
+	return held
+}
+
+// VerifLockProbe tries every mutex owned by the downstream once.
+func (d *Downstream) VerifLockProbe() []string {
+	var held []string
+	verifTry("Downstream.mu", d.mu.TryLock, d.mu.Unlock, &held)
+	verifTry("Downstream.state", d.state.TryLock, d.state.Unlock, &held)
+	return held
+}
